@@ -1,3 +1,4 @@
+import Firebolt.Properties.ExecFlow
 import Firebolt.Spec.ExecTrace
 import Firebolt.Generated.Skeleton
 import Firebolt.Expected.Skeleton
@@ -102,5 +103,20 @@ theorem skeleton_deliverToChild : Generated.deliverToChild = Expected.deliverToC
 theorem skeleton_invokeProcessorAsync : Generated.invokeProcessorAsync = Expected.invokeProcessorAsync := by rfl
 theorem skeleton_initNodeContextHierarchy : Generated.initNodeContextHierarchy = Expected.initNodeContextHierarchy := by rfl
 theorem skeleton_runNode : Generated.runNode = Expected.runNode := by rfl
+
+
+/-! ### every schedule (component model) -/
+open Firebolt.Exec in
+/-- per-edge conservation at quiescence for every interleaving: a non-discarding child received exactly the results of the
+events its parent was sent and passed (multiset equality) -/
+theorem edge_conservation_any_schedule (c : Cfg) (caps : Nat → Nat) (disc : Nat → Bool) (as : List Act) (s : St)
+    (hr : run c (init c caps disc) as = some s) (ht : Terminal c s) (k : Nat) (hk : k < c.nChildren) (hd : (s.outs k).discard = false) :
+    (s.enq k).Perm (s.upSent.flatMap (results c)) := terminal_child c s (reachable_all c caps disc as s hr) ht k hk hd
+
+open Firebolt.Exec in
+/-- every channel, discarding or not, is offered exactly what the node handed to delivery -/
+theorem offered_is_produced_any_schedule (c : Cfg) (caps : Nat → Nat) (disc : Nat → Bool) (as : List Act) (s : St)
+    (hr : run c (init c caps disc) as = some s) (ht : Terminal c s) (k : Nat) : (s.offered k).Perm (s.produced k) :=
+  terminal_offered c s (reachable_all c caps disc as s hr) ht k
 
 end Firebolt.C01
